@@ -110,7 +110,7 @@ def real_kernel(ctx):
         rc, data, log = sandbox.run_driver('harness.sync_main', [ctx.tier], timeout=500 * scale,
                                            env={'VERIF_TIME_SCALE': str(scale)})
         if rc != 0 or data is None:
-            raise RuntimeError('synchronisation driver failed (rc=%s): %s' % (rc, log[-1500:]))
+            sandbox.driver_failed('synchronisation', rc, log)
         _, verdicts = monitor.check('SyncObs', data, invariants=OBS_INV)
         return data, set((v['name'], data[v['trace']]['kind'], data[v['trace']]['method']) for v in verdicts)
     data, bad = once()
